@@ -485,7 +485,8 @@ func TestC11Server(t *testing.T) {
 			return
 		}
 		conn := st.Dial(0)
-		conn.SetDeadline(time.Now().Add(20 * time.Second))
+		bound := hangBound()
+		conn.SetDeadline(time.Now().Add(bound))
 		done := make(chan struct{})
 		go func() {
 			conn.Write(in)
@@ -498,9 +499,10 @@ func TestC11Server(t *testing.T) {
 		<-done
 		conn.Close()
 		if ne, ok := err.(net.Error); err != nil && ok && ne.Timeout() {
+			noteHang()
 			var dump [1 << 16]byte
 			n := runtime.Stack(dump[:], true)
-			t.Fatalf("C11 server %s %s input %d bytes %x…: connection neither answered-and-closed nor closed within 20s after the client finished sending (%v); %d reply bytes; goroutines:\n%s", sc.Cfg, kind, len(in), in[:min(len(in), 48)], err, len(reply), dump[:n])
+			t.Fatalf("C11 server %s %s input %d bytes %x…: connection neither answered-and-closed nor closed within the bound (60s for the first suspected hang of a process) after the client finished sending (%v); %d reply bytes; goroutines:\n%s", sc.Cfg, kind, len(in), in[:min(len(in), 48)], err, len(reply), dump[:n])
 		}
 		// a fresh connection is served correctly
 		cl := wire.NewClient(st.Dial(0), true)
